@@ -35,6 +35,7 @@ import (
 const (
 	c18Mi          = int64(1) << 20
 	c18ExcludedNS  = "c18-excluded"
+	c18SelectLabel = "c18/evictable"
 	c18TierNode    = 0
 	c18TierProd    = 1
 	c18FlagOK      = 0 // passes the evictor's filters
@@ -111,7 +112,7 @@ type c18Cfg struct {
 	NodeFit   bool   `json:"nodeFit"`
 	AnomalyK  uint32 `json:"anomalyK"` // 0: no anomaly condition
 	AnomalyN  uint32 `json:"anomalyN"`
-	RejMech   int    `json:"rejMech"`  // how Flag==c18FlagRej is realised: 0 evictor filter, 1 excluded namespace
+	RejMech   int    `json:"rejMech"`  // how Flag==c18FlagRej is realised: 0 evictor filter, 1 excluded namespace, 2 pod selector mismatch
 	FailMask  uint32 `json:"failMask"` // bit i set: the i-th Evict call of a round returns false
 }
 
@@ -155,6 +156,7 @@ type c18Call struct {
 }
 
 type c18Evictor struct {
+	static   map[string]bool   // pod key -> rejected by the configured namespace / pod-selector rule
 	flags    map[string]int    // pod key -> flag
 	where    map[string][2]int // pod key -> node index, pod index
 	failMask uint32
@@ -181,9 +183,9 @@ func (e *c18Evictor) Evict(ctx context.Context, pod *corev1.Pod, _ framework.Evi
 	idx := len(e.calls)
 	w, known := e.where[c18PodKey(pod)]
 	c := c18Call{Node: w[0], Pod: w[1], Unknown: !known}
-	// what the environment's filters say about the pod at this very moment (static flags incl. the namespace
-	// mechanism are folded in by the harness: see c18World.passes)
-	c.FilterPass = e.Filter(pod) && pod.Namespace != c18ExcludedNS
+	// what the filters say about the pod at this very moment: the evictor's own (possibly dynamic) filter and the
+	// namespace / pod-selector rule the harness configured for pods flagged as rejected
+	c.FilterPass = e.Filter(pod) && !e.static[c18PodKey(pod)]
 	c.OK = !e.failAll && (idx >= 32 || e.failMask&(1<<uint(idx)) == 0)
 	if c.OK {
 		e.okCount++
@@ -259,6 +261,7 @@ func c18Load(cfg *c18Cfg, rd *c18Round, h *c18Handle, l *c18Lister, applyPod fun
 	now := time.Now()
 	h.pods = make(map[string][]*corev1.Pod, len(rd.Nodes))
 	h.ev.flags = map[string]int{}
+	h.ev.static = map[string]bool{}
 	h.ev.where = map[string][2]int{}
 	h.ev.calls = nil
 	h.ev.okCount = 0
@@ -295,14 +298,27 @@ func c18Load(cfg *c18Cfg, rd *c18Round, h *c18Handle, l *c18Lister, applyPod fun
 				pod.Labels[extension.LabelPodPriorityClass] = string(extension.PriorityBatch)
 			}
 			flag := p.Flag
-			if flag == c18FlagRej && cfg.RejMech == 1 {
-				pod.Namespace = c18ExcludedNS
-				flag = c18FlagOK // the evictor's own filter has no objection; the namespace rule rejects
+			static := false
+			switch cfg.RejMech {
+			case 1:
+				if flag == c18FlagRej {
+					pod.Namespace = c18ExcludedNS
+					flag, static = c18FlagOK, true // the evictor's own filter has no objection; the namespace rule rejects
+				}
+			case 2:
+				if flag == c18FlagRej {
+					flag, static = c18FlagOK, true // no label: the plugin's pod selector does not match
+				} else {
+					pod.Labels[c18SelectLabel] = "true"
+				}
 			}
 			if applyPod != nil {
 				applyPod(pod)
 			}
 			key := c18PodKey(pod)
+			if static {
+				h.ev.static[key] = true
+			}
 			h.ev.flags[key] = flag
 			h.ev.where[key] = [2]int{i, j}
 			h.pods[name] = append(h.pods[name], pod)
@@ -368,8 +384,12 @@ func c18Args(cfg *c18Cfg) *deschedulerconfig.LowNodeLoadArgs {
 		DetectorCacheTimeout:        &metav1.Duration{Duration: 24 * time.Hour},
 		NodePools:                   []deschedulerconfig.LowNodeLoadNodePool{pool},
 	}
-	if cfg.RejMech == 1 {
+	switch cfg.RejMech {
+	case 1:
 		args.EvictableNamespaces = &deschedulerconfig.Namespaces{Exclude: []string{c18ExcludedNS}}
+	case 2:
+		args.PodSelectors = []deschedulerconfig.LowNodeLoadPodSelector{{Name: "evictable",
+			Selector: &metav1.LabelSelector{MatchLabels: map[string]string{c18SelectLabel: "true"}}}}
 	}
 	if err := validation.ValidateLowLoadUtilizationArgs(nil, args); err != nil {
 		panic(fmt.Sprintf("c18: harness configuration rejected by the plugin's own validation: %v", err))
